@@ -1,5 +1,6 @@
 import hashlib
 
+from rogw.tranp.errors import Errors
 from rogw.tranp.lang.annotation import injectable
 from rogw.tranp.module.module import Module
 from rogw.tranp.module.loader import IModuleLoader
@@ -68,12 +69,19 @@ class Modules:
 			* ロードしたモジュールはパスとマッピングしてキャッシュ
 			* 依存モジュールを再帰的にロードする
 			```
+		Raises:
+			Errors.Fatal: 未ハンドリングの不特定エラー
 		"""
 		if module_path not in self.__modules:
-			self.__load_libraries(module_path)
-			self.__modules[module_path] = self.__loader.load(ModulePath(module_path, language))
-			self.__load_dependencies(self.__modules[module_path])
-			self.__loader.preprocess(self.__modules[module_path])
+			try:
+				self.__load_libraries(module_path)
+				self.__modules[module_path] = self.__loader.load(ModulePath(module_path, language))
+				self.__load_dependencies(self.__modules[module_path])
+				self.__loader.preprocess(self.__modules[module_path])
+			except Errors.Error:
+				raise
+			except Exception as e:
+				raise Errors.Fatal(module_path, 'Unhandled error', e) from e
 
 		return self.__modules[module_path]
 
